@@ -134,7 +134,7 @@ func genCuts(t *rapid.T, stream []byte) []int {
 
 func genC01(t *rapid.T) ProtoCase {
 	c := ProtoCase{Ifaces: genIfaces(t), Transport: "pipe", Origin: "C01"}
-	if rapid.IntRange(0, 9).Draw(t, "unix") == 0 {
+	if rapid.IntRange(0, 5).Draw(t, "unix") == 0 {
 		c.Transport = "unix"
 	}
 	nconn := rapid.IntRange(1, 4).Draw(t, "nconn")
@@ -145,6 +145,9 @@ func genC01(t *rapid.T) ProtoCase {
 			cc.Frames = append(cc.Frames, genCall(t, c.Ifaces, k, i))
 		}
 		cc.Cuts = genCuts(t, cc.stream())
+		if c.Transport == "unix" && rapid.IntRange(0, 2).Draw(t, "halfclose") == 0 {
+			cc.AbortAt = len(cc.stream()) // half-close right after the last call; every call is still answered as scripted
+		}
 		c.Conns = append(c.Conns, cc)
 	}
 	if rapid.IntRange(0, 39).Draw(t, "stall") == 7 {
